@@ -38,7 +38,7 @@ print(f"{P} m{K}: demo clean rc={rc0}, demo mutated rc={rc1}, tests rc={rct} ({o
 if not ok:
     print(o0[-500:], o1[-300:], ot[-500:], od[-300:]); sys.exit(1)
 # which check catches it
-rcc, oc = sh(f"/verif/tools/try_mutant.sh {P} {diff} {a.tier}", cwd="/verif", timeout=3000)
+rcc, oc = sh(f"/verif/tools/try_mutant_iso.sh {P} {diff} {a.tier}", cwd="/verif", timeout=3000)
 caught = "VIOLATION" in oc
 kind = "failing-input" if re.search(r"VIOLATION property=\S+ replay=\S+\s*$", oc, re.M) else ("no-failing-input-found" if caught else "missed")
 dst = f"/verif/seeded/{P}_m{K}"
@@ -51,7 +51,7 @@ meta = {
                   "existing_tests_with_change": tests + ["test/test_persistent_dict.py (10 known DBMDict failures, 12 passed, as baseline)"],
                   "existing_tests_pass": True},
     "ran": [f"cd <scratch worktree> && {PY} demo.py  (0)", "git apply patch.diff", f"{PY} demo.py  (non-zero)",
-            f"{PY} -m pytest -q {' '.join(tests)}", f"tools/try_mutant.sh {P} patch.diff {a.tier}"],
+            f"{PY} -m pytest -q {' '.join(tests)}", f"tools/try_mutant_iso.sh {P} patch.diff {a.tier}"],
     "check_result": {"tier": a.tier, "caught": caught, "kind": kind, "output": [l for l in oc.splitlines() if l.strip()][:6]},
 }
 json.dump(meta, open(f"{dst}/meta.json", "w"), indent=1)
